@@ -200,6 +200,10 @@ pub fn malformations<F: Fam>(p: &F::P, rng: &mut Rng) -> Vec<Malformed> {
         let mut nb = name_bytes.clone();
         nb[0] = b'm';
         push("protocol-name", with_byte(&enc, hl + 2, b'm'), format!("InvalidProtocol({},{})", hex(&nb), lvl));
+        // the protocol name is a wire string like any other: ill-formed UTF-8 in it is InvalidString
+        // (it is the one string that is not a String field of the packet value)
+        let at = hl + 2 + rng.below(name_bytes.len() as u64) as usize;
+        push("non-utf8-protocol-name", with_byte(&enc, at, *rng.pick(&[0xffu8, 0x80, 0xc3, 0xf8])), "InvalidString".into());
         let other = if v5 { 4 } else { 5 };
         if name_bytes == b"MQTT" {
             push("cross-family-level", with_byte(&enc, fo - 1, other), format!("UnexpectedProtocol({})", if v5 { "V311" } else { "V500" }));
